@@ -19,8 +19,8 @@ import sys
 
 GROUPS = {
     # group: (file, [qualified names]); a name `A.b` = method b of class A, `f.g` = inner function g of f, `@X` = module-level assignment X
-    "Parser": ("_parser.py", ["_span_to_tok", "_span_to_str_or_int", "_get_group_indices",
-                              "_flush_op_by_precedence", "_postfix_from_infix", "_maybe_multiaxis", "expression_from_string",
+    "Parser": ("_parser.py", ["_span_to_tok", "_span_to_str_or_int",
+                              "_postfix_from_infix", "_maybe_multiaxis", "expression_from_string",
                               "DLTypeDimensionExpression.from_multiaxis_literal", "@_VALID_IDENTIFIER_RX"]),
     "Shape": ("_tensor_type_base.py", ["TensorTypeBase.__class_getitem__"]),
     "Expand": ("_dltype_context.py", ["_ConcreteType.tensor_arg_name", "DLTypeContext.__init__"]),
